@@ -238,6 +238,90 @@ def str_slices(R, ctx):
     R.meta["functions_scanned_for_str_slices"] = n_fn
 
 
+POSITION = "nodes::token::Position"
+TOKEN_T = "nodes::token::Token"
+TRIVIA_T = "nodes::token::Trivia"
+
+
+def _under_branch(root, target):
+    """True when `target` sits below an If / multi-arm Match / Loop / Closure inside `root`."""
+    def rec(e, cond):
+        if e is target:
+            return cond
+        k = e.get("k")
+        c2 = cond or k in ("If", "Loop", "Closure") or (k == "Match" and not str(e.get("src", "")).startswith("TryDesugar") and len(e.get("arms", [])) > 1)
+        for ch in thir.subexprs(e):
+            r = rec(ch, c2)
+            if r is not None:
+                return r
+        return None
+    return rec(root, False)
+
+
+def resolve_total(R, ctx):
+    """Typestate: after Token::replace_referenced_tokens no Position::LineNumberReference remains."""
+    rid = "C12.resolve"
+    lib = ctx.lib
+    R.rule(rid, "Token::replace_referenced_tokens (with the helpers it calls in nodes::token) turns EVERY `Position::LineNumberReference` of the token and of "
+                "its trivia into an owned position: each test for that variant is unguarded (no match guard, no `&&`), its branch builds the owned "
+                "`Position::LineNumber` unconditionally, and both Token.position and Trivia.position are assigned; a reference left behind is read "
+                "against another file's text by the generator (panic / wrong content)")
+    entry = lib.fn(TOKEN_T + "::replace_referenced_tokens")
+    if not R.require(rid, "anchor", entry is not None, "", "Token::replace_referenced_tokens not found"):
+        return
+    scope, todo = {}, [entry["path"]]
+    while todo:
+        p = todo.pop()
+        if p in scope or p not in lib.fns:
+            continue
+        scope[p] = lib.fns[p]
+        for c in thir.fn_refs(lib.fns[p]):
+            cal = thir.callee_of(c) or c.get("callee") or ""
+            q = lib.fn(cal)
+            if q is not None and "nodes::token::" in q["path"] and q["path"] not in scope:
+                todo.append(q["path"])
+    tests = []
+
+    def owned(e):
+        if e.get("k") == "Adt" and e.get("adt") == POSITION and e.get("variant") == "LineNumber":
+            return True
+        if e.get("k") == "Call":
+            q = lib.fn(thir.callee_of(e) or "")
+            return q is not None and q["path"].endswith("Position::line_number")
+        return False
+    for p, fn in scope.items():
+        body = thir.body_of(fn)
+        if not body:
+            continue
+        for n in thir.walk(body):
+            if n.get("k") == "If" and n["cond"].get("k") in ("Let", "Logical"):
+                lets = [x for x in thir.walk(n["cond"]) if x.get("k") == "Let" and (POSITION, "LineNumberReference") in thir.pat_variants(x["pat"])]
+                for l in lets:
+                    tests.append((fn, n.get("ln"), n["cond"] is l, n["then"]))
+            elif n.get("k") == "Match" and not str(n.get("src", "")).startswith(("TryDesugar", "ForLoopDesugar")):
+                for arm in n["arms"]:
+                    if (POSITION, "LineNumberReference") in thir.pat_variants(arm["pat"]):
+                        tests.append((fn, arm.get("ln") or n.get("ln"), "guard" not in arm, arm["body"]))
+    R.require(rid, "floor:tests", len(tests) >= 1, ctx.where(entry), "%d tests for Position::LineNumberReference in %d functions" % (len(tests), len(scope)))
+    for i, (fn, ln, unguarded, body) in enumerate(tests):
+        key = "%s#%d" % (fn["path"].split("::")[-1], sum(1 for t in tests[:i] if t[0] is fn))
+        R.ob(rid, "unguarded|" + key, unguarded, ctx.where(fn, ln),
+             "the LineNumberReference test is %s" % ("unconditional" if unguarded else "guarded by an extra condition: references that fail it stay unresolved"))
+        cons = [x for x in thir.walk(body) if owned(x)]
+        ok = bool(cons) and any(not _under_branch(body, x) for x in cons)
+        R.ob(rid, "builds-owned|" + key, ok, ctx.where(fn, ln),
+             "the branch builds an owned Position::LineNumber on every path" if ok else "the branch does not build an owned position unconditionally")
+    written = set()
+    for p, fn in scope.items():
+        fa = ctx.an.fa(p)
+        for n in thir.walk(thir.body_of(fn) or {}):
+            if n.get("k") == "Assign":
+                written |= {o for o in fa.origins(n["l"]) if o[0] in (TOKEN_T, TRIVIA_T)}
+    for slot in ((TOKEN_T, "position"), (TRIVIA_T, "position")):
+        R.ob(rid, "assigned|%s.%s" % (slot[0].split("::")[-1], slot[1]), slot in written, ctx.where(entry), "%s.%s is %s" % (slot[0].split("::")[-1], slot[1], "assigned" if slot in written else "never assigned in replace_referenced_tokens"))
+    R.meta["resolve_scope"] = sorted(scope)
+
+
 def census(R, ctx):
     lib = ctx.lib
     n = {}
@@ -261,6 +345,7 @@ def run(R, ctx):
     R.assumptions += ["full_moon's own recursion is outside the claim (as in the property)", "panicking functions are recognised by name"]
     walkers.walker_cover(R, ctx, "C12.tokens-cover", "replace_referenced_tokens")
     bundle_tokens(R, ctx)
+    resolve_total(R, ctx)
     no_recursion(R, ctx)
     parse_values(R, ctx)
     worker_errors(R, ctx)
